@@ -145,7 +145,23 @@ def run_malformed(s):
         else:
             S.problem("%s(%r) after the string was handed to the other functions of the module" % (fn.__name__, s),
                       "NoteFormatError", {"returned": r})
-    S.trans(11)
+    # and valid names are still answered as ever right after the refusals
+    for nm in ("Eb", "C##", "Fb", "B#b"):
+        want_pc = P.pc(nm)
+        got = {}
+        for fname in ("note_to_int", "reduce_accidentals", "remove_redundant_accidentals"):
+            try:
+                got[fname] = getattr(notes, fname)(nm)
+            except Exception as e:                  # noqa
+                got[fname] = e
+        ok = (got["note_to_int"] == want_pc and P.is_name(got["reduce_accidentals"]) and P.pc(got["reduce_accidentals"]) == want_pc
+              and got["remove_redundant_accidentals"] == P.canonical(nm))
+        if not ok:
+            S.problem("note_to_int / reduce_accidentals / remove_redundant_accidentals of %r right after the refused string %r" % (nm, s),
+                      {"pitch class": want_pc, "remove_redundant_accidentals": P.canonical(nm)},
+                      dict((k, v if isinstance(v, (int, str)) else repr(v)) for k, v in got.items()))
+            break
+    S.trans(23)
     S.count("malformed")
     S.outcome((s[0] in P.NAT, bool(v)))
     if len(s) == 3:
@@ -275,6 +291,11 @@ def explore(ctx):
         _PAIR_NAMES[0] = P.names(kp)
         ctx.bound("enharmonic_pairs", len(_PAIR_NAMES[0]) ** 2)
         ctx.product("enharmonic", list(_PAIR_NAMES[0]), gen_pairs)
+        # pure runs of sharps or flats up to 14 accidentals: pairs whose unfolded semitone counts lie several octaves apart
+        runs = [L + acc * n for L in P.LETTERS for acc in "#b" for n in range(0, 15)]
+        runs = sorted(set(runs))
+        ctx.bound("enharmonic_long_runs", "%d names (7 letters x up to 14 sharps or 14 flats), all ordered pairs" % len(runs))
+        ctx.product("enharmonic", runs, lambda a: ([a, b] for b in runs))
     if ctx.want("int_to_note"):
         ints = list(range(-30, 31)) + [-2 ** 63, -2 ** 31, -123, 100, 123123, 2 ** 31, 2 ** 63, 10 ** 20]
         ctx.bound("int_to_note_integers", "-30..30 and %r" % (ints[61:],))
